@@ -1,4 +1,6 @@
 //! C15 — vector clock lattice laws (K-pure): all u32 entries, concrete lengths.
+#[cfg(not(kani))]
+use crate::shim as kani;
 use shuttle_engine::runtime::task::clock::VectorClock;
 use shuttle_engine::scheduler::TaskId;
 use std::cmp::Ordering;
@@ -124,25 +126,28 @@ crate::harness! {
     fn c15_lub_2() { lub::<2>(); }
 }
 
-/// extend(): zero-extends to hold `task_id` and keeps existing entries.
+/// extend(): zero-extends to hold `task_id` and keeps existing entries (target id concrete per call:
+/// a symbolic allocation size is outside what the solver can handle).
+fn extend_to<const T: usize>() {
+    let (a, ca) = any_clock::<2>();
+    let mut e = ca.clone();
+    e.extend(TaskId::from(T));
+    assert!(e.time.len() == T + 1, "C15: extend produced the wrong length");
+    let mut i = 0;
+    while i <= T {
+        assert!(e.get(i) == get(&a, i), "C15: extend changed an entry or did not zero-fill");
+        i += 1;
+    }
+    assert!(ca <= e, "C15: extending a clock moved it backwards");
+    std::mem::forget(ca);
+    std::mem::forget(e);
+}
+
 crate::harness! {
     #[kani::unwind(8)]
     fn c15_extend() {
-        let (a, ca) = any_clock::<2>();
-        let t: usize = kani::any();
-        kani::assume(t >= 2 && t <= 4);
-        let mut e = ca.clone();
-        e.extend(TaskId::from(t));
-        assert!(e.time.len() == t + 1);
-        let mut i = 0;
-        while i <= 4 {
-            if i <= t {
-                assert!(e.get(i) == get(&a, i), "C15: extend changed an entry or did not zero-fill");
-            }
-            i += 1;
-        }
-        assert!(ca <= e);
-        std::mem::forget(ca);
-        std::mem::forget(e);
+        extend_to::<2>();
+        extend_to::<3>();
+        extend_to::<4>();
     }
 }
